@@ -182,6 +182,24 @@ def run(ctx, R, tier):
                         used = True
             if not used:
                 problems.append('the value read is discarded')
+            else:
+                # ... and a command that arrived has an effect: on the Some side (and only there) something is called or stored
+                from ..rules import option_edges, bool_edges
+                oe = option_edges(b, bb)
+                if oe is None:
+                    for x, tt in b.calls():
+                        if (tt['callee'].get('name') in ('is_some', 'is_none')) and b.dominates(bb, x) and \
+                                ('_%d' % dl) in repr(tt['args']) + repr([s2 for s2 in b.blocks[x]['stmts']]):
+                            be = bool_edges(b, x)
+                            if be is not None:
+                                oe = (be[0], be[1]) if tt['callee'].get('name') == 'is_some' else (be[1], be[0])
+                if oe is not None:
+                    some_side = b.reachable([oe[0]]) - b.reachable([oe[1]])
+                    acts = [x for x in some_side if not b.blocks[x]['cleanup'] and (
+                        b.blocks[x]['term']['k'] in ('call', 'tailcall') or b.blocks[x]['term'].get('inlined')
+                        or any(st['k'] in ('assign', 'setdiscr') and st['lhs']['p'] for st in b.blocks[x]['stmts']))]
+                    if not acts:
+                        problems.append('a command that arrived is read and then ignored (nothing is called or stored on the Some side)')
         R.check(not problems, 'B.C07.cover', 'reader:' + key, '; '.join(problems),
                 detail={'field': key, 'read_in': b.path, 'side': 'decoder' if in_dec and not in_osp else 'audio'},
                 where=b.where(bb))
